@@ -105,6 +105,28 @@ def check_mapping(R, name, lib, tag, mapping, as_group):
                             % (name, prop, T, wit['mapping'], got[1], want), wit)
             else:
                 R.outcomes['sum-ok'] += 1
+    # the estimate must not follow later changes of the caller's own mapping
+    d = dict((str(g), c) for g, c in mapping)
+    r2 = E.ev(lib.Estimate, d, 'thermochem')
+    temps = E.grid_inside(rng, mapping, lib)[:2]
+    if r2[0] == 'ok' and temps:
+        before = [E.ev(getattr(r2[1], p), T)[:2] for T in temps for p in E.PROPS]
+        for k in list(d):
+            d[k] = d[k] * 3 + 1
+        d['Q(Z)9'] = 5
+        after = [E.ev(getattr(r2[1], p), T)[:2] for T in temps for p in E.PROPS]
+        d.clear()
+        cleared = [E.ev(getattr(r2[1], p), T)[:2] for T in temps for p in E.PROPS]
+        R.evals += 1
+        R.nontrivial += 1
+        if before != after or before != cleared:
+            R.outcomes['aliases-caller-mapping'] += 1
+            R.violation('estimate-follows-callers-mapping',
+                        '[%s] estimate of %r changed after the caller modified its own '
+                        'mapping: %r -> %r' % (name, wit['mapping'], before[:2],
+                                               (after if before != after else cleared)[:2]), wit)
+        else:
+            R.outcomes['independent-of-callers-mapping'] += 1
     if len(mapping) > 1:
         R.sample(dict(library=name, mapping=wit['mapping'], range=rng), limit=1)
 
